@@ -293,7 +293,15 @@ def shared_mutables(a, b):
     if i in wb and o is not a and o is not b and \
         not is_immutable_value(o) and not isinstance(o, (tuple, frozenset)):
       out.append((pa, wb[i][1], type(o).__name__))
-  return sorted(out)
+  out.sort()
+  # keep the outermost shared objects only: what is inside a shared container
+  # is shared because the container is
+  top = []
+  for t in out:
+    if not any(t[0] != u[0] and t[0].startswith(u[0]) and
+               t[0][len(u[0]):len(u[0]) + 1] in (".", "[", "{") for u in out):
+      top.append(t)
+  return top
 
 
 def lines_inside(line):
